@@ -174,15 +174,39 @@ var keyNames = []string{"a", "b", "c", "d", "e", "f", "g", "h"}
 var fontProps = []string{"family:\"serif\"", "size:3", "weight:700", "style:\"italic\"", "baseline:\"top\"", "align:\"center\"", "letterspacing:1",
 	"bogus1:1", "bogus2:\"x\"", "size:\"big\"", "weight:0", "align:\"up\"", "family:1", "zzz:true"}
 
+// operations that consume or produce map values; $m is a map variable with many keys, $d a fresh name
+var mapOps = []string{
+	"$d := [$m] * 2\nprint $d\n",
+	"$d := [$m $m] * 1\nprint $d[0] $d[1]\n",
+	"$d := [[$m]] * 2\nprint $d\n",
+	"$d := [{inner:$m}] * 2\nprint $d\n",
+	"$d := [$m] + [$m]\nprint $d\n",
+	"$d := [$m][:]\nprint $d\n",
+	"$d := {outer:$m other:$m}\nprint $d\n",
+	"$d := sprint $m\nprint $d\n",
+	"$d := sprintf \"%v|%v\" $m [$m]\nprint $d\n",
+	"$d:any\n$d = $m\nprint $d ($d == $m)\n",
+	"$d:any\n$d = [$m] * 2\nprint $d\n",
+	"$d:[]any\n$d = [$m 1] * 2\nprint $d\n",
+	"for $d := range $m\n    print $d $m[$d]\nend\n",
+	"$d := $m\n$d.zz = 99\ndel $d \"a\"\nprint $d (len $d) (has $d \"b\")\n",
+	"$d := $m == $m\nprint $d ([$m] == [$m] * 1)\n",
+	"$d := (mapid $m)\nprint $d\n",
+	"$d := [(mapid $m)] * 2\nprint $d\n",
+	"$d := typeof [$m]\nprint $d\n",
+	"test [$m] ([$m] * 1)\n$d := 1\nprint $d\n",
+	"test $m $m\n$d := 2\nprint $d\n",
+}
+
 // mapSites builds a program around the places where evy keeps things in Go maps.
 func mapSites(t *rapid.T) (string, []string) {
 	var sb strings.Builder
 	var classes []string
-	sb.WriteString("x := [2]\ny := {k:\"v\"}\nz := 5\nprint x y z\nfunc f:num n:num\n    print \"f\" n\n    return n\nend\n")
+	sb.WriteString("x := [2]\ny := {k:\"v\"}\nz := 5\nprint x y z\nfunc f:num n:num\n    print \"f\" n\n    return n\nend\nfunc mapid:{}num mp:{}num\n    return mp\nend\n")
 	n := rapid.IntRange(1, 4).Draw(t, "nsites")
 	unusedDeclared := 0
 	for i := 0; i < n; i++ {
-		switch rapid.IntRange(0, 4).Draw(t, "site") {
+		switch rapid.IntRange(0, 6).Draw(t, "site") {
 		case 0: // map literal with many pairs
 			k := rapid.IntRange(3, 8).Draw(t, "npairs")
 			pool := vals
@@ -239,6 +263,22 @@ func mapSites(t *rapid.T) (string, []string) {
 			}
 			sb.WriteString("}\ntext \"t\"\n")
 			classes = append(classes, "site:font-props")
+		case 5: // a map with many keys taken through every operation that handles map values
+			k := rapid.IntRange(3, 8).Draw(t, "npairs")
+			sb.WriteString(fmt.Sprintf("mm%d := {", i))
+			for j := 0; j < k; j++ {
+				sb.WriteString(fmt.Sprintf("%s:%d ", keyNames[(j*3+i)%len(keyNames)], j))
+			}
+			sb.WriteString("}\n")
+			mv := fmt.Sprintf("mm%d", i)
+			nops := rapid.IntRange(1, 5).Draw(t, "nmapops")
+			for j := 0; j < nops; j++ {
+				d := fmt.Sprintf("d%d_%d", i, j)
+				op := rapid.SampledFrom(mapOps).Draw(t, "mapop")
+				sb.WriteString(strings.NewReplacer("$m", mv, "$d", d).Replace(op))
+			}
+			sb.WriteString("print " + mv + "\n")
+			classes = append(classes, "site:map-operations")
 		default: // several handlers
 			for _, hd := range []string{"on key k:string\n    print \"key\" k (rand 100)\nend\n", "on down\n    print \"down\"\nend\n", "on animate\n    print \"tick\"\nend\n"} {
 				if !strings.Contains(sb.String(), hd[:7]) {
